@@ -162,7 +162,7 @@ def run_msg(build, label, tier, res, is_unknown=False, part='names'):
                 res['refuted'] += 1
                 nm, vk, vv, why = bad
                 if eng.check3() == 'sat':
-                    mdl = eng.solver.model()
+                    mdl = eng.model()
                     pl = bytes(mdl.eval(sym.byte_term(e), model_completion=True).as_long() if not isinstance(e, int) else e for e in H['p'].e)
                     cname = nm if isinstance(nm, str) else "".join(c if isinstance(c, str) else chr(mdl.eval(c.t, model_completion=True).as_long()) for c in nm.cs)
                     if isinstance(vv, SymInt):
@@ -177,7 +177,7 @@ def run_msg(build, label, tier, res, is_unknown=False, part='names'):
         eng = sym.Engine(max_paths=2)
         for path in eng.explore(fn0):
             if path.kind == 'ret' and eng.check3() == 'sat':
-                mdl = eng.solver.model()
+                mdl = eng.model()
                 pl = bytes(mdl.eval(sym.byte_term(e), model_completion=True).as_long() if not isinstance(e, int) else e for e in H['p'].e)
                 for nm in (names[min(3, len(names) - 1)], "_payload", "brandnew"):
                     res['witnesses'].append({'kind': 'setattr', 'payload': pl.hex(), 'name': nm, 'value': ['int', 7]})
